@@ -13,6 +13,12 @@ structure JSt where
   cluster : Cluster := {}
   out : List String := []
   compression : Nat := 0
+  clientId : Bytes := []
+  maxCorr : Int := 0
+  fetchMaxWait : Int := 100
+  fetchMinBytes : Int := 4096
+  fetchMaxBytes : Int := 32768
+  storage : String := "none"
   -- C12
   prodMeta : List (Bytes × (List Int × Nat)) := []
   run : Option (Bytes × List Int) := none
@@ -183,11 +189,152 @@ def judgeC03 (ops : List OpRec) : List String :=
     | _ => s) ({} : JSt)
   s.out
 
+/-! ### C09 -/
+
+def leaderHost (c : Cluster) (t : Bytes) (p : Int) : Option Bytes :=
+  match c.part? t p with
+  | some ps => (c.brokers.find? (·.nodeId == ps.leader)).map fun b => b.host ++ strBytes ":" ++ strBytes (toString b.port)
+  | none => none
+
+/-- follow the client settings that show up on the wire -/
+def trackSettings (s : JSt) (op : OpRec) : JSt :=
+  match op.toks with
+  | [_, "set", "client_id", v] => { s with clientId := (fromHex v).getD [] }
+  | [_, "set", "compression", v] => { s with compression := v.toNat?.getD 0 }
+  | [_, "set", "fetch_max_wait", a, b] =>
+    match a.toNat?, b.toNat? with
+    | some a, some b => match Model.toMillisI32 a b with
+      | .ok m => { s with fetchMaxWait := m }
+      | .error _ => s
+    | _, _ => s
+  | [_, "set", "fetch_min_bytes", v] => { s with fetchMinBytes := v.toInt?.getD 0 }
+  | [_, "set", "fetch_max_bytes", v] => { s with fetchMaxBytes := v.toInt?.getD 0 }
+  | [_, "set", "storage", v] => { s with storage := v }
+  | ["client_new", _] => { s with clientId := [], compression := 0, fetchMaxWait := 100, fetchMinBytes := 4096, fetchMaxBytes := 32768, storage := "none" }
+  | _ => s
+
+def reqFrames (op : OpRec) : List (Bytes × Bytes) :=
+  op.evs.filterMap fun e => match e with | .req h f _ => some (h, f) | _ => none
+
+def sortFP (ps : List FetchPart) : List FetchPart := sortBy (fun a b => a.partition < b.partition) ps
+
+def judgeC09 (ops : List OpRec) : List String :=
+  let s := ops.foldl (fun (s : JSt) op =>
+    let s := { s with cluster := applySetup s.cluster op.setup }
+    let s := trackSettings s op
+    let frames := reqFrames op
+    -- 1. every frame is complete and parses under the independent grammar, nothing left over
+    let parsed := frames.map fun (h, f) => (h, f, Spec.parseFrame f)
+    let s := parsed.foldl (fun s (_, f, r) => match r with
+      | some _ => s
+      | none => viol s "C09-frame-unparseable" op s!"frame does not parse under the Kafka v0 grammar: {toHex (f.take 200)}") s
+    let reqs : List (Bytes × Request) := parsed.filterMap fun (h, _, r) => r.map fun r => (h, r)
+    -- 2. header: configured client id; correlation ids never decrease across calls and are not shared by two calls
+    let s := reqs.foldl (fun s (_, r) =>
+      if r.header.clientId == some s.clientId then s
+      else viol s "C09-client-id" op s!"header client id {repr r.header.clientId}, configured {toHexTok s.clientId}") s
+    let corrs := reqs.map (·.2.header.corr)
+    let s := if corrs.any (· ≤ s.maxCorr) then viol s "C09-correlation" op s!"correlation ids {corrs} not above {s.maxCorr} used by earlier calls" else s
+    let s := { s with maxCorr := corrs.foldl max s.maxCorr }
+    -- 3. an unrepresentable string: nothing may be sent
+    -- (a topic name that long can never be in the metadata, so it only reaches the wire as an explicit
+    --  metadata-load argument or as a group name)
+    let longTok (t : String) : Bool := t.length > 2 * 32767
+    let tooLong := s.clientId.length > 32767 || (match op.toks with
+      | _ :: "load_metadata" :: ts => ts.any longTok
+      | _ :: "commit_offsets" :: g :: _ => longTok g
+      | _ :: "fetch_group_offsets" :: g :: _ => longTok g
+      | _ :: "fetch_group_topic_offset" :: g :: _ => longTok g
+      | _ => false)
+    let s := if tooLong ∧ !frames.isEmpty then viol s "C09-sent-despite-unencodable" op "a frame was sent although a string does not fit its length field" else s
+    -- 4. the body states what was asked
+    match op.toks with
+    | _ :: "fetch_messages" :: args =>
+      match parseFetchArgs args with
+      | none => s
+      | some fas =>
+        if tooLong then s else
+        -- later duplicates of a (topic, partition) replace earlier ones
+        let dedup := fas.foldl (fun (m : List Model.FetchArg) a => (m.filter fun b => !(b.topic == a.topic && b.partition == a.partition)) ++ [a]) []
+        let want : List (Bytes × Bytes × FetchPart) := dedup.filterMap fun a =>
+          (leaderHost s.cluster a.topic a.partition).map fun h =>
+            (h, a.topic, ⟨a.partition, a.offset, if a.maxBytes > 0 then a.maxBytes else s.fetchMaxBytes⟩)
+        let got : List (Bytes × Bytes × FetchPart) := reqs.flatMap fun (h, r) => match r.body with
+          | .fetch _ _ _ ts => ts.flatMap fun (t, ps) => ps.map fun p => (h, t, p)
+          | _ => []
+        let key (x : Bytes × Bytes × FetchPart) : String := s!"{toHexTok x.1}|{toHexTok x.2.1}|{x.2.2.partition}|{x.2.2.offset}|{x.2.2.maxBytes}"
+        let w := sortBy (· < ·) (want.map key)
+        let g := sortBy (· < ·) (got.map key)
+        let s := if w == g then s else viol s "C09-fetch-body" op s!"fetch requests state {g}, asked (restricted to led partitions, by leader) {w}"
+        reqs.foldl (fun s (_, r) => match r.body with
+          | .fetch rep mw mb _ =>
+            if rep == -1 && mw == s.fetchMaxWait && mb == s.fetchMinBytes then s
+            else viol s "C09-fetch-settings" op s!"replica {rep} max_wait {mw} min_bytes {mb}; configured -1 {s.fetchMaxWait} {s.fetchMinBytes}"
+          | _ => viol s "C09-wrong-api" op "fetch_messages emitted a non-fetch request") s
+    | _ :: "fetch_offsets" :: time :: _ =>
+      reqs.foldl (fun s (h, r) => match r.body with
+        | .offsets rep ts =>
+          let s := if r.header.apiKey == 2 && r.header.apiVersion == 0 && rep == -1 then s else viol s "C09-offsets-header" op "key/version/replica"
+          ts.foldl (fun s (t, ps) => ps.foldl (fun s p =>
+            let s := if some p.time == time.toInt? && p.maxOffsets == 1 then s else viol s "C09-offsets-body" op s!"time {p.time} max {p.maxOffsets}"
+            if leaderHost s.cluster t p.partition == some h then s else viol s "C09-offsets-route" op s!"{toHexTok t}/{p.partition} asked of {toHexTok h}") s) s
+        | _ => viol s "C09-wrong-api" op "fetch_offsets emitted another request") s
+    | _ :: "list_offsets" :: time :: _ =>
+      reqs.foldl (fun s (h, r) => match r.body with
+        | .offsets rep ts =>
+          let s := if r.header.apiKey == 2 && r.header.apiVersion == 1 && rep == -1 then s else viol s "C09-list-offsets-header" op "key/version/replica"
+          ts.foldl (fun s (t, ps) => ps.foldl (fun s p =>
+            let s := if some p.time == time.toInt? then s else viol s "C09-list-offsets-body" op s!"time {p.time}"
+            if leaderHost s.cluster t p.partition == some h then s else viol s "C09-list-offsets-route" op s!"{toHexTok t}/{p.partition} asked of {toHexTok h}") s) s
+        | _ => viol s "C09-wrong-api" op "list_offsets emitted another request") s
+    | _ :: "produce" :: acks :: secs :: nanos :: _ =>
+      let to := match secs.toNat?, nanos.toNat? with
+        | some a, some b => (Model.toMillisI32 a b).toOption
+        | _, _ => none
+      reqs.foldl (fun s (_, r) => match r.body with
+        | .produce a t _ =>
+          if some a == acks.toInt? && some t == to then s else viol s "C09-produce-body" op s!"acks {a} timeout {t}"
+        | _ => viol s "C09-wrong-api" op "produce emitted another request") s
+    | _ :: "commit_offsets" :: g :: args =>
+      match fromHex g, parseTPO args with
+      | some g, some tpo =>
+        reqs.foldl (fun s (_, r) => match r.body with
+          | .offsetCommit g' gen mem ret ts =>
+            let v := r.header.apiVersion
+            let s := if (s.storage == "zk" && v == 0) || (s.storage == "kafka" && v == 1) then s else viol s "C09-commit-version" op s!"version {v} with storage {s.storage}"
+            let s := if g' == g && gen == -1 && mem == [] && ret == -1 then s else viol s "C09-commit-group" op "group / generation / member / retention"
+            let got := ts.flatMap fun (t, ps) => ps.map fun p => s!"{toHexTok t}|{p.partition}|{p.offset}|{p.timestamp}|{repr p.metadata}"
+            let want := tpo.map fun (t, p, o) => s!"{toHexTok t}|{p}|{o}|{if v == 1 then -1 else 0}|{repr (some ([] : Bytes))}"
+            if sortBy (· < ·) got == sortBy (· < ·) want then s else viol s "C09-commit-body" op s!"commit states {got}, asked {want}"
+          | .groupCoordinator g' => if g' == g then s else viol s "C09-coordinator-group" op "group"
+          | _ => viol s "C09-wrong-api" op "commit emitted another request") s
+      | _, _ => s
+    | _ :: "fetch_group_offsets" :: g :: args =>
+      match fromHex g, parseTP args with
+      | some g, some tps =>
+        reqs.foldl (fun s (_, r) => match r.body with
+          | .offsetFetch g' ts =>
+            let v := r.header.apiVersion
+            let s := if (s.storage == "zk" && v == 0) || (s.storage == "kafka" && v == 1) then s else viol s "C09-offset-fetch-version" op s!"version {v} with storage {s.storage}"
+            let got := ts.flatMap fun (t, ps) => ps.map fun p => s!"{toHexTok t}|{p}"
+            let want := tps.map fun (t, p) => s!"{toHexTok t}|{p}"
+            if g' == g && sortBy (· < ·) got == sortBy (· < ·) want then s else viol s "C09-offset-fetch-body" op s!"states {got}, asked {want}"
+          | .groupCoordinator g' => if g' == g then s else viol s "C09-coordinator-group" op "group"
+          | _ => viol s "C09-wrong-api" op "group offset fetch emitted another request") s
+      | _, _ => s
+    | _ :: "load_metadata" :: ts =>
+      reqs.foldl (fun s (_, r) => match r.body with
+        | .metadata names => if some names == ts.mapM fromHex then s else viol s "C09-metadata-body" op "topic list differs"
+        | _ => viol s "C09-wrong-api" op "load_metadata emitted another request") s
+    | _ => s) ({} : JSt)
+  s.out
+
 def judge (prop : String) (lines : List String) : List String :=
   let ops := parseOps lines
   match prop with
   | "C12" => judgeC12 ops
   | "C03" => judgeC03 ops
+  | "C09" => judgeC09 ops
   | _ => []
 
 end Kafka.Judge
